@@ -70,6 +70,20 @@ impl<T: Clone + Writeable + Readable> PlainSeg<T> {
 			proof: proof_hashes(&proof),
 		}
 	}
+	/// Everything but the leaf data (identifier, positions, hashes, proof): to compare two segments.
+	pub fn bytes_no_leaves(&self) -> Vec<u8> {
+		let mut b = vec![self.h];
+		b.extend_from_slice(&self.idx.to_be_bytes());
+		for p in self.hash_pos.iter().chain(self.leaf_pos.iter()) {
+			b.extend_from_slice(&p.to_be_bytes());
+		}
+		b.extend_from_slice(&(self.hash_pos.len() as u64).to_be_bytes());
+		for h in self.hashes.iter().chain(self.proof.iter()) {
+			b.extend_from_slice(h.as_bytes());
+		}
+		b.extend_from_slice(&(self.proof.len() as u64).to_be_bytes());
+		b
+	}
 	pub fn bytes(&self) -> Vec<u8> {
 		let mut b = vec![self.h];
 		b.extend_from_slice(&self.idx.to_be_bytes());
